@@ -1,6 +1,10 @@
 package rules
 
-import "osmcheck/core"
+import (
+	"strings"
+
+	"osmcheck/core"
+)
 
 // Round-6 shape class for the JSON reader: the per-type switch replaced by a read-only TABLE of constructors keyed by
 // the type string plus a type switch on the constructed value to pick the collection. The table is consulted with a
@@ -18,5 +22,6 @@ var c05Benign3 = []core.Mutant{
 }
 
 var c05Mutants3 = []core.Mutant{
+	{Name: "constructor-table-misses-a-kind", File: "osm.go", Find: c05ReaderSwitch, Replace: strings.Replace(c05ReaderTable("Way"), "\t\t\t\"user\":      func() Object { return &User{} },\n", "", 1), ExpectRule: "J2", ExpectConstruct: "case \"user\""},
 	{Name: "constructor-table-entry-of-other-type", File: "osm.go", Find: c05ReaderSwitch, Replace: c05ReaderTable("Node"), ExpectRule: "J2", ExpectConstruct: "case \"way\""},
 }
